@@ -23,7 +23,13 @@ def run(ctx):
         import random
         random.Random(ctx.seed).shuffle(sessions)
         sessions = sessions[:8000 if q else 80000]
-    evs, _, _ = run_harness(ctx, "splicer", "TestVerifSplice", {"sessions": sessions, "random": 500 if q else 5000, "served": 300 if q else 3000}, timeout=3000)
+    evs, rc, txt = run_harness(ctx, "splicer", "TestVerifSplice", {"sessions": sessions, "random": 500 if q else 5000, "served": 300 if q else 3000}, timeout=3000, allow_fail=True)
+    if rc != 0:
+        # a panic on a goroutine of the splicer cannot be recovered by the driver: the process dies inside the last session
+        if ("panic:" in txt or "fatal error" in txt) and any(e["ev"] == "reset" for e in evs):
+            evs.append({"ev": "call", "on": 1, "q": 0, "start": 0, "items": [], "done": False, "panic": True, "what": "process crashed: " + txt[-1200:]})
+        else:
+            raise vlib.Inconclusive("splicer harness failed:\n" + txt[-2000:])
     bad, r2 = vlib.judge(ctx, "T_Splice", "T_Splice.cfg", evs)
     sess = {}
     cur = None
